@@ -62,6 +62,7 @@ VoteMuts(b) ==
     \cup {M("sigPayload", "break", [b EXCEPT !.sig = Sig(b.v, q)]) : q \in Payloads \ {p}}
     \cup {M("sigBy", "break", [b EXCEPT !.sig = Sig(j, p)]) : j \in (Vals \cup {Foreign}) \ {b.v}}
     \cup {M("sigBytes", "break", [b EXCEPT !.sig = Sig(Garbled, p)])}
+    \cup {M("sigTorsion", "break", [b EXCEPT !.sig = Sig(Torsion, p)])}
 
 VoteBases == {MakeVote(k, BaseSlot, BaseHash, v) : k \in VoteKinds, v \in Vals}
 
@@ -111,6 +112,8 @@ HalfMuts(c, X) ==
     \cup {M("bagDup", "break", SetHalf(c, X, [hf EXCEPT !.dup = @ \cup {sg}])) : sg \in hf.bag \ hf.dup}
     \cup {M("bagForeign", "break", SetHalf(c, X, [hf EXCEPT !.bag = @ \cup {Sig(Foreign, p)}]))}
     \cup {M("sigBytes", "break", SetHalf(c, X, [hf EXCEPT !.bag = @ \cup {Sig(Garbled, p)}]))}
+    \* the aggregate replaced by itself plus a low-order point outside the signature group
+    \cup {M("sigTorsion", "break", SetHalf(c, X, [hf EXCEPT !.bag = @ \cup {Sig(Torsion, p)}]))}
     \* one signer's signature replaced by the same signer's signature over another kind / slot / hash
     \cup UNION {{M("sigPayload", "break",
                    SetHalf(c, X, [hf EXCEPT !.bag = (@ \ {Sig(i, p)}) \cup {Sig(i, q)}, !.dup = @ \ {Sig(i, p)}]))
